@@ -40,7 +40,7 @@ static int
 build_base(int ndds, int nbase, int mixed)
 {
     vfs_remove_file(PATH);
-    if (mixed) {
+    if (mixed == 1) {
         /* SD first (creates the file with the requested DD block size through Hopen is not possible: SDstart uses its own),
            so create with Hopen, close, then add through the other interfaces */
     }
@@ -54,7 +54,14 @@ build_base(int ndds, int nbase, int mixed)
         if (Hputelement(fid, BTAG, (uint16)(i + 1), d, 6) != 6)
             return -1;
     }
-    if (mixed) {
+    if (mixed == 2) {
+        /* aliases (descriptors without data of their own) until a new descriptor block has been started: that block is then
+           the last thing in the file */
+        for (int j = 0; j <= ndds; j++)
+            if (Hdupdd(fid, BTAG, (uint16)(200 + j), BTAG, 1) == FAIL)
+                return -1;
+    }
+    if (mixed == 1) {
         Vstart(fid);
         int32 vs = VSattach(fid, -1, "w");
         VSsetname(vs, "basevd");
@@ -96,7 +103,7 @@ build_base(int ndds, int nbase, int mixed)
     }
     if (Hclose(fid) == FAIL)
         return -1;
-    if (mixed) {
+    if (mixed == 1) {
         int32 sd = SDstart(PATH, DFACC_RDWR);
         if (sd == FAIL)
             return -1;
@@ -137,7 +144,7 @@ base_digest(const char *path, int nbase, int mixed, char *why, size_t nwhy)
         }
         h = mc_hash(h, d, 6);
     }
-    if (mixed) {
+    if (mixed == 1) {
         Vstart(fid);
         int32 vsref = VSfind(fid, "basevd");
         int32 vs    = vsref > 0 ? VSattach(fid, vsref, "r") : FAIL;
@@ -208,7 +215,7 @@ base_digest(const char *path, int nbase, int mixed, char *why, size_t nwhy)
         snprintf(why, nwhy, "Hclose failed after reading");
         return 0;
     }
-    if (mixed) {
+    if (mixed == 1) {
         int32 sd = SDstart(path, DFACC_READ);
         int32 idx = sd != FAIL ? SDnametoindex(sd, "basesds") : FAIL;
         int32 sds = idx != FAIL ? SDselect(sd, idx) : FAIL;
@@ -402,7 +409,7 @@ run_case(long idx, void *ctx)
     (void)ctx;
     case_t *c      = &cases[idx];
     int     cfg[5] = {c->ndds, c->nbase, c->mixed, c->sess, c->nnew};
-    mc_set_config(cfg, 5, "ndds=%d base=%d elements%s session=%s x%d", c->ndds, c->nbase, c->mixed ? "+Vdata/Vgroup/AN/GR/SDS" : "", sessname[c->sess],
+    mc_set_config(cfg, 5, "ndds=%d base=%d elements%s session=%s x%d", c->ndds, c->nbase, c->mixed == 1 ? "+Vdata/Vgroup/AN/GR/SDS" : c->mixed == 2 ? "+aliases so that a descriptor block ends the file" : "", sessname[c->sess],
                   c->nnew);
     mc_set_case("base(ndds=%d,n=%d,mixed=%d) + %s x%d", c->ndds, c->nbase, c->mixed, sessname[c->sess], c->nnew);
     if (build_base(c->ndds, c->nbase, c->mixed)) {
@@ -562,7 +569,7 @@ C17_main(const char *tier, const char *replay)
         int ndds = ndds_l[ni];
         int nb[6] = {1, ndds - 2, ndds - 1, ndds, 2 * ndds - 1, 2 * ndds + 1};
         for (int bi = 0; bi < 6; bi++)
-            for (int mixed = 0; mixed <= 1; mixed++)
+            for (int mixed = 0; mixed <= 2; mixed++)
                 for (int sess = 0; sess < S_NSESS; sess++) {
                     int nn[3] = {1, 3, ndds + 2};
                     for (int k = 0; k < 3; k++) {
@@ -570,7 +577,9 @@ C17_main(const char *tier, const char *replay)
                             continue;
                         if (sess == S_V && k == 2)
                             continue;
-                        if (!thorough && mixed && (bi == 0 || bi == 4))
+                        if (!thorough && mixed == 1 && (bi == 0 || bi == 4))
+                            continue;
+                        if (mixed == 2 && (sess == S_SD || sess == S_GR || bi == 5))
                             continue;
                         if (ncases < 512)
                             cases[ncases++] = (case_t){ndds, nb[bi], mixed, sess, nn[k]};
